@@ -152,8 +152,9 @@ class AsyncEvent:
 
 
 class AsyncSemaphore:
-    def __init__(self, bound: int) -> None:
+    def __init__(self, bound: int, initial_value: int | None = None) -> None:
         self._bound = bound
+        self._initial_value = bound if initial_value is None else initial_value
         self._backend = ""
 
     def setup(self) -> None:
@@ -164,11 +165,11 @@ class AsyncSemaphore:
         self._backend = current_async_library()
         if self._backend == "trio":
             self._trio_semaphore = trio.Semaphore(
-                initial_value=self._bound, max_value=self._bound
+                initial_value=self._initial_value, max_value=self._bound
             )
         elif self._backend == "asyncio":
             self._anyio_semaphore = anyio.Semaphore(
-                initial_value=self._bound, max_value=self._bound
+                initial_value=self._initial_value, max_value=self._bound
             )
 
     async def acquire(self) -> None:
@@ -292,8 +293,9 @@ class Event:
 
 
 class Semaphore:
-    def __init__(self, bound: int) -> None:
-        self._semaphore = threading.Semaphore(value=bound)
+    def __init__(self, bound: int, initial_value: int | None = None) -> None:
+        value = bound if initial_value is None else initial_value
+        self._semaphore = threading.Semaphore(value=value)
 
     def acquire(self) -> None:
         self._semaphore.acquire()
